@@ -50,6 +50,8 @@ type FuncSpec struct {
 	NoInline  bool
 	Pure      bool
 	Allocates bool
+	IsLemma   bool
+	LemmaParams string
 }
 
 type SpecFunc struct {
@@ -153,6 +155,15 @@ func loadContracts(files []string, pkgNames []string) (*Contracts, error) {
 				if strings.HasPrefix(res, "(") {
 					cur.Results = parseNames(res[1 : len(res)-1])
 				}
+				cs.Funcs[pkg+"."+cur.Key] = cur
+				lastClause, lastSpec, lastAxiom = nil, nil, nil
+			case word == "lemma":
+				m := regexp.MustCompile(`^(\w+)\s*\((.*)\)\s*$`).FindStringSubmatch(rest)
+				if m == nil {
+					return nil, fmt.Errorf("%s:%d: cannot parse lemma header %q", file, ln+1, body)
+				}
+				cur = &FuncSpec{Pkg: pkg, Loops: map[int]*LoopSpec{}, File: file, Line: ln + 1, IsLemma: true, Key: "lemma." + m[1], LemmaParams: m[2]}
+				cur.Params = parseNames(m[2])
 				cs.Funcs[pkg+"."+cur.Key] = cur
 				lastClause, lastSpec, lastAxiom = nil, nil, nil
 			case word == "spec":
